@@ -10,7 +10,7 @@ import core
 
 # the Fix* flags say which repairs of DESIGN section 7 the current /repo contains (layer M models
 # what the code does today)
-FIX = {"FixF2": "TRUE", "FixF3": "TRUE", "FixF14": "FALSE"}
+FIX = {"FixF2": "TRUE", "FixF3": "TRUE", "FixF14": "TRUE"}
 
 PLACEMENTS = {
     "mid": dict(TS=2, HSA=5, G=1, Others="{1, 3, 126}", PS=1, NS=3),
